@@ -39,6 +39,7 @@ class C04(PropBase):
         prog += [('ids', 0), ('ips', 0, None), ('avgnodes', 0)]
         for t in ts:
             prog += [('ips', 0, t), ('nnodes', 0, t)]
+        prog += [('ids', 0), ('ips', 0, None), ('avgnodes', 0)]      # asking about empty instants must not create them
         return prog
 
     def oracle(self, case, prog, ri):
